@@ -15,10 +15,11 @@ EXPLANATION = (
     "reaches the stage but has no formal to receive the carrier is a violation. R2: a carrier is only ever replaced "
     "by the defaulting idiom, with literals equal to the stage's signature defaults. R3: the configuration routes "
     "(get_config keys, SiftConfig.get_func partial) deliver keys that are formals of the variant / stage and do "
-    "not collide with explicit keywords at the ** sites. Not decided: how much an option changes the numbers.")
+    "not collide with explicit keywords at the ** sites. R4 sibling agreement: an option a function forwards to a helper "
+    "at one call site is forwarded at every call of that helper (peak / trough, upper / lower envelope). Not decided: how much an option changes the numbers.")
 RULE_TEXT = ("one obligation per (caller, call/dispatch site, carrier); distinct = distinct keys; all evaluated "
              "paths of the caller must bind the carrier for a PASS")
-FLOORS = {'C06.R1': 40, 'C06.R2': 10, 'C06.R3': 6}
+FLOORS = {'C06.R1': 40, 'C06.R2': 10, 'C06.R3': 6, 'C06.R4': 3}
 PINNED_EXPECT = [('C06.R1', 'emd.sift.get_next_imf_mask', 'envelope_opts'),
                  ('C06.R1', 'emd.sift.get_next_imf_mask', 'extrema_opts'),
                  ('C06.R1', 'emd.sift.complete_ensemble_sift', 'starmap(sift)#1 / imf_opts'),
@@ -40,6 +41,7 @@ def run(ctx):
     rule_no_replacement(ctx, 'C06.R2')
     from .c18 import rule_config_keys
     rule_config_keys(ctx, 'C06.R3')
+    rule_sibling_forwarding(ctx, 'C06.R4')
 
 
 # ----------------------------------------------------------------------------------------------
@@ -157,11 +159,12 @@ def _carrier_delivered(bound, star, carrier, caller_val, at_stage):
     return False, 'bound to %s instead of the caller\'s %s' % (show(v)[:60], carrier)
 
 
-def rule_carrier_flow(ctx, rid):
+def rule_carrier_flow(ctx, rid, only=None):
     P = ctx.P
     carrier_funcs = [fi for q, fi in sorted(P.funcs.items())
                      if any(k in fi.all_formals() for k in STAGES) and fi.module.name in ('emd.sift', 'emd.utils',
-                                                                                          'emd.spectra', 'emd.cycles')]
+                                                                                          'emd.spectra', 'emd.cycles')
+                     and (only is None or q in only)]
     ctx.cover['carrier_functions'] = [f.qualname for f in carrier_funcs]
     total = 0
     for fi in carrier_funcs:
@@ -232,7 +235,7 @@ class _NoLit:
     pass
 
 
-def rule_no_replacement(ctx, rid):
+def rule_no_replacement(ctx, rid, only=None):
     """A carrier formal is reassigned only by the defaulting idiom, and the literal default equals the stage's
     signature defaults - so "no option" and "explicit defaults" coincide.  Option dicts (also the nested pad tables)
     are never modified in place: a key popped from the caller's dict is silently missing on the next call."""
@@ -242,6 +245,8 @@ def rule_no_replacement(ctx, rid):
     from ..paths import known_functions
     for q, fi in sorted(P.funcs.items()):
         if fi.module.name != 'emd.sift' or fi.parent is not None:
+            continue
+        if only is not None and q not in only:
             continue
         if q not in known_functions() and fi.name.startswith('_'):
             continue      # private helpers introduced later are covered through the summaries of their callers
@@ -259,6 +264,8 @@ def rule_no_replacement(ctx, rid):
                 ctx.passed(rid, fi, c)
     for q, fi in sorted(P.funcs.items()):
         if fi.module.name not in ('emd.sift', 'emd.utils', 'emd.spectra', 'emd.cycles'):
+            continue
+        if only is not None and q not in only:
             continue
         for carrier, stage in STAGES.items():
             if carrier not in fi.all_formals():
@@ -352,3 +359,50 @@ def _defaulting_ok(fi, a, carrier, stagef):
                                         and not v.keywords)):
         return None
     return 'supplied options replaced by %s' % unparse(v)[:60]
+
+
+# ----------------------------------------------------------------------------------------------
+def rule_sibling_forwarding(ctx, rid):
+    """Sibling call sites agree: when a function hands one of its own options (a formal passed on under the same name,
+    or a ** carrier) to a helper at one call site, every other call of that helper in the function passes it too.
+    (The peak and the trough branch of get_padded_extrema, the upper and the lower envelope of get_next_imf ...)"""
+    P = ctx.P
+    n = 0
+    for q, fi in sorted(P.funcs.items()):
+        if fi.module.name != 'emd.sift' or fi.parent is not None or fi.cls is not None:
+            continue
+        try:
+            sites, nexits, ev = collect_sites(P, fi)
+        except AnalysisError:
+            continue
+        by_callee = {}
+        for key, s in sites.items():
+            if s.kind != 'call':
+                continue
+            by_callee.setdefault(s.callee, []).append(s)
+        for callee, ss in sorted(by_callee.items()):
+            g = P.funcs[callee]
+            if g is fi or g.module.name != 'emd.sift':
+                continue
+            states = [(s, st) for s in ss for st in s.states]
+            if len(states) < 2:
+                continue
+            # options forwarded somewhere
+            fwd = set()       # (** carriers are covered site by site by R1)
+            for s, (bound, star, env, trace) in states:
+                for o, v in bound.items():
+                    if o in fi.all_formals() and v == env.get(o, S(o)) and o != fi.params[0]:
+                        fwd.add(o)
+            for o in sorted(fwd):
+                n += 1
+                c = 'every call of %s passes on %s' % (g.name, o)
+                missing = [(s, trace) for s, (bound, star, env, trace) in states
+                           if bound.get(o) != env.get(o, S(o))]
+                if missing:
+                    s, trace = missing[0]
+                    ctx.violation(rid, fi, c, '%s forwards its option %s to %s at one call but not at the call on line '
+                                  '%d: the option takes effect for one branch only' % (fi.name, o, g.name, s.node.lineno),
+                                  node=s.node, path=trace[-6:])
+                else:
+                    ctx.passed(rid, fi, c, '%d call states' % len(states))
+    ctx.cover['sibling_forwarding_obligations'] = n
